@@ -9,7 +9,7 @@ LEVEL = dict(
     rule_text="one obligation per constant or primitive choice the standard fixes (Algorithms 1, 1.A, 2, 2.A, 2.B, 3-13): the fact is "
               "read from the MIR of the named algorithm function (constants, loop ranges, resolved callees, rendered branch "
               "conditions, argument terms); R-DEAD: a compiler temporary that is mutably borrowed for an in-place transformation "
-              "and never read afterwards",
+              "and never read afterwards; revision dispatch by value-set analysis (a *_r2/_r3_r4/_r4/_r6 method is selected for exactly those revisions); set-before-read for the PasswordAlgorithm under construction (Algorithm 9 needs U before O); SHA-256/384/512 selection by (sum of E[..16]) mod 3",
     explanation="Decides that the constants and primitive choices ISO 32000 fixes are the ones the code uses, and that no in-place "
                 "cipher call works on a discarded copy. Does not decide that the algorithms compose correctly or that any ciphertext "
                 "matches another implementation: agreement with the standard beyond these facts is outside static reach.",
